@@ -1096,6 +1096,10 @@ func (c *DefaultCtx) Params(key string, defaultValue ...string) string {
 			if len(c.values) <= i || len(c.values[i]) == 0 {
 				break
 			}
+			if c.app.config.Immutable {
+				// the values are slices of the path buffer, which is re-used by later requests
+				return strings.Clone(c.values[i])
+			}
 			return c.values[i]
 		}
 	}
@@ -1187,7 +1191,7 @@ func (c *DefaultCtx) Scheme() string {
 
 // Protocol returns the HTTP protocol of request: HTTP/1.1 and HTTP/2.
 func (c *DefaultCtx) Protocol() string {
-	return utils.UnsafeString(c.fasthttp.Request.Header.Protocol())
+	return c.app.getString(c.fasthttp.Request.Header.Protocol())
 }
 
 // Query returns the query string parameter in the url.
